@@ -411,7 +411,9 @@ rawnext(void)
 static bool
 peekparen(void)
 {
-	static struct array pending;
+	static struct array pendingbuf[2];
+	static int cur;
+	struct array *pending;
 	struct token *t, old;
 	struct frame *f;
 
@@ -424,15 +426,17 @@ peekparen(void)
 		++f->ntoken;
 		return false;
 	}
-	pending.len = 0;
+	/* the token being examined may still live in the buffer filled last time */
+	pending = &pendingbuf[cur ^= 1];
+	pending->len = 0;
 	old = tok;  /* directives met on the way scan into tok */
-	do t = arrayadd(&pending, sizeof(*t)), nextinto(t);
+	do t = arrayadd(pending, sizeof(*t)), nextinto(t);
 	while (t->kind == TNEWLINE);
 	tok = old;
 	if (t->kind == TLPAREN)
 		return true;
-	t = pending.val;
-	ctxpush(t, pending.len / sizeof(*t), NULL, t[0].space);
+	t = pending->val;
+	ctxpush(t, pending->len / sizeof(*t), NULL, t[0].space);
 	return false;
 }
 
